@@ -35,31 +35,32 @@ From Yv Require Import Common.Base.
 (* Syntax                                                              *)
 (* ------------------------------------------------------------------ *)
 
-(* Command names.  The first group are special built-ins of yash-rs, the
+(* Command names.  The first group are special built-ins of yash-rs ([NExec] is
+   `exec` without operands, [NDot] is `.` applied to a file that does not exist), the
    second group the regular ("mandatory") built-ins that the harness
    registers, [NCommand] the `command` built-in; [NUser i] is any other name
    (rendered f<i>): a function if one is defined, else not found. *)
 Inductive name :=
-| NColon | NBreak | NContinue | NReturn | NExit | NSet
-| NProbe | NTrue | NFalse
+| NColon | NBreak | NContinue | NReturn | NExit | NSet | NExec | NDot
+| NProbe | NTrue | NFalse | NWait
 | NUser (i : N).
 
 Definition name_eqb (a b : name) : bool :=
   match a, b with
   | NColon, NColon | NBreak, NBreak | NContinue, NContinue | NReturn, NReturn
-  | NExit, NExit | NSet, NSet | NProbe, NProbe | NTrue, NTrue | NFalse, NFalse => true
+  | NExit, NExit | NSet, NSet | NExec, NExec | NDot, NDot | NProbe, NProbe | NTrue, NTrue | NFalse, NFalse | NWait, NWait => true
   | NUser i, NUser j => N.eqb i j
   | _, _ => false
   end.
 
 Definition is_special (nm : name) : bool :=
   match nm with
-  | NColon | NBreak | NContinue | NReturn | NExit | NSet => true
+  | NColon | NBreak | NContinue | NReturn | NExit | NSet | NExec | NDot => true
   | _ => false
   end.
 
 Definition is_regular_builtin (nm : name) : bool :=
-  match nm with NProbe | NTrue | NFalse => true | _ => false end.
+  match nm with NProbe | NTrue | NFalse | NWait => true | _ => false end.
 
 (* Words: a literal token, `$x` (expands to no field if x is unset or empty:
    tokens contain neither blanks nor pattern characters), or `${x?}` (an
@@ -78,6 +79,9 @@ Definition plain : deco := mkDeco false false.
 Inductive cmd :=
 | CAssign (x : N) (w : word)                 (* x=w          (no command word) *)
 | CReadonly (x : N)                          (* readonly x   (special built-in) *)
+| CAssignSub (x : N) (body : clist)          (* x=$(body)    (no command word) *)
+| CSubstArg (body : clist)                   (* : $(body)    (the substitution's status is ignored) *)
+| CAsync (a : andor)                         (* { a & }      (asynchronous and-or list) *)
 | CCall (d : deco) (nm : name) (args : list N)
 | CBrace (body : clist)
 | CSubshell (body : clist)
@@ -159,25 +163,57 @@ Record state := mkState {
   errexit : bool;                 (* option ErrExit *)
   status : N;                     (* Env::exit_status, `$?` *)
   trace : list (N * N);           (* probe calls (key, `$?` on entry), newest first *)
-  exit_trap : option clist        (* action of the EXIT trap set in this shell environment *)
+  exit_trap : option clist;       (* action of the EXIT trap set in this shell environment *)
+  jobs : list (N * N);            (* asynchronous jobs not yet waited for: id, exit status *)
+  last_async : option N;          (* `$!` *)
+  next_job : N                    (* the id the next asynchronous job gets *)
 }.
 
-Definition init_state : state := mkState [] [] [] false 0 [] None.
+Definition init_state : state := mkState [] [] [] false 0 [] None [] None 0.
 
 Definition set_status (st : N) (s : state) : state :=
-  mkState (vars s) (ronly s) (funs s) (errexit s) st (trace s) (exit_trap s).
+  mkState (vars s) (ronly s) (funs s) (errexit s) st (trace s) (exit_trap s) (jobs s) (last_async s) (next_job s).
 Definition set_errexit (b : bool) (s : state) : state :=
-  mkState (vars s) (ronly s) (funs s) b (status s) (trace s) (exit_trap s).
+  mkState (vars s) (ronly s) (funs s) b (status s) (trace s) (exit_trap s) (jobs s) (last_async s) (next_job s).
 Definition set_trace (t : list (N * N)) (s : state) : state :=
-  mkState (vars s) (ronly s) (funs s) (errexit s) (status s) t (exit_trap s).
+  mkState (vars s) (ronly s) (funs s) (errexit s) (status s) t (exit_trap s) (jobs s) (last_async s) (next_job s).
 Definition set_exit_trap (t : option clist) (s : state) : state :=
-  mkState (vars s) (ronly s) (funs s) (errexit s) (status s) (trace s) t.
+  mkState (vars s) (ronly s) (funs s) (errexit s) (status s) (trace s) t (jobs s) (last_async s) (next_job s).
 Definition set_var (x : N) (v : option N) (s : state) : state :=
-  mkState ((x, v) :: vars s) (ronly s) (funs s) (errexit s) (status s) (trace s) (exit_trap s).
+  mkState ((x, v) :: vars s) (ronly s) (funs s) (errexit s) (status s) (trace s) (exit_trap s) (jobs s) (last_async s) (next_job s).
 Definition add_ronly (x : N) (s : state) : state :=
-  mkState (vars s) (x :: ronly s) (funs s) (errexit s) (status s) (trace s) (exit_trap s).
+  mkState (vars s) (x :: ronly s) (funs s) (errexit s) (status s) (trace s) (exit_trap s) (jobs s) (last_async s) (next_job s).
 Definition define_fun (nm : name) (body : cmd) (s : state) : state :=
-  mkState (vars s) (ronly s) ((nm, body) :: funs s) (errexit s) (status s) (trace s) (exit_trap s).
+  mkState (vars s) (ronly s) ((nm, body) :: funs s) (errexit s) (status s) (trace s) (exit_trap s) (jobs s) (last_async s) (next_job s).
+Definition set_jobs (j : list (N * N)) (s : state) : state :=
+  mkState (vars s) (ronly s) (funs s) (errexit s) (status s) (trace s) (exit_trap s) j
+          (last_async s) (next_job s).
+(* item.rs execute_async, the parent's side: the job is remembered, `$!` is set *)
+Definition start_job (st : N) (s : state) : state :=
+  mkState (vars s) (ronly s) (funs s) (errexit s) (status s) (trace s) (exit_trap s)
+          ((next_job s, st) :: jobs s) (Some (next_job s)) (N.succ (next_job s)).
+
+Fixpoint lookup_job (id : N) (l : list (N * N)) : option N :=
+  match l with
+  | [] => None
+  | (i, st) :: l => if N.eqb id i then Some st else lookup_job id l
+  end.
+
+(* yash-builtin wait.rs / wait/status.rs: `wait` (args = []) waits for every
+   job, forgets them and returns 0; `wait $!` (args = [_]) returns the status of
+   the last asynchronous job and forgets it, 127 if it is not (any more) a job
+   of this shell environment; without a `$!` the operand expands to nothing.
+   In the model every asynchronous job has finished when it is waited for. *)
+Definition job_wait (args : list N) (s : state) : N * state :=
+  match (match args with [_] => last_async s | _ => None end) with
+  | None => (0%N, set_jobs [] s)
+  | Some id =>
+      match lookup_job id (jobs s) with
+      | Some st => (st, set_jobs (filter (fun j => negb (N.eqb (fst j) id)) (jobs s)) s)
+      | None => (127%N, s)
+      end
+  end.
+
 Definition push_trace (k : N) (s : state) : state :=
   set_trace ((k, status s) :: trace s) s.
 
@@ -320,10 +356,18 @@ Definition run_builtin (nm : name) (spf : bool) (stk : list frame) (args : list 
                     | [b] => if N.ltb b 2 then negb (N.eqb b 0) else errexit s
                     | _ => errexit s
                     end) s)
+  | NExec =>
+      (* `exec` without a command (only its redirections matter) *)
+      ((0%N, Cont), s)
+  | NDot =>
+      (* `. FILE` for a FILE that does not exist: source/semantics.rs
+         report_find_and_open_file_failure: ExitStatus::FAILURE + the error divert *)
+      ((1%N, error_divert spf), s)
   | NBreak => (builtin_break true spf stk args, s)
   | NContinue => (builtin_break false spf stk args, s)
   | NReturn => (builtin_return true spf s args, s)
   | NExit => (builtin_return false spf s args, s)
+  | NWait => let '(st, s') := job_wait args s in ((st, Cont), s')
   | NUser _ => ((127%N, Cont), s)
   end.
 
@@ -351,7 +395,7 @@ Definition absorb_child (parent child : state) : state :=
   set_trace (trace child) (set_status (status child) parent).
 
 (* The state a subshell starts from (traps other than "ignore" are reset). *)
-Definition child_state (s : state) : state := set_exit_trap None s.
+Definition child_state (s : state) : state := set_jobs [] (set_exit_trap None s).
 
 Definition is_cont (r : flow) : bool := match r with Cont => true | _ => false end.
 
@@ -374,6 +418,38 @@ Fixpoint exec_cmd (n : nat) (stk : list frame) (c : cmd) (s : state) {struct n} 
   | CReadonly x =>
       let s1 := set_status 0 (add_ronly x s) in
       Some (apply_errexit stk s1, s1)
+  | CAssignSub x body =>
+      (* expansion/initial/command_subst.rs: the body runs like a subshell
+         (apply_result, run_exit_trap); probes write nothing to its standard
+         output, so the value is empty; absent.rs: the exit status of the
+         command is that of the substitution *)
+      match run_subshell n stk body s with
+      | None => None
+      | Some child =>
+          if is_ronly x s then
+            let s1 := set_trace (trace child) s in
+            Some (handle_expansion_error stk s1, s1)
+          else
+            let s1 := set_var x None (absorb_child s child) in
+            Some (apply_errexit stk s1, s1)
+      end
+  | CSubstArg body =>
+      match run_subshell n stk body s with
+      | None => None
+      | Some child =>
+          let s1 := set_status 0 (set_trace (trace child) s) in
+          Some (apply_errexit stk s1, s1)
+      end
+  | CAsync a =>
+      (* item.rs execute_async: the and-or list runs in a subshell (apply_result,
+         run_exit_trap there); the parent remembers the job, `$?` is 0, and
+         Item::execute does not apply errexit.  The body is run to its end here
+         (the order of its probes relative to the parent's is not observed). *)
+      match run_subshell n stk (LCons a LNil) s with
+      | None => None
+      | Some child =>
+          Some (Cont, start_job (status child) (set_status 0 (set_trace (trace child) s)))
+      end
   | CCall d nm args =>
       (* SimpleCommand::execute: classify, run the target, `?`, apply_errexit *)
       let r :=
